@@ -829,8 +829,13 @@ func (fc *FuncCtx) applyContract(st *State, fn *types.Func, c *FuncContract, rec
 			continue
 		}
 		fc.noOblig++
-		g := fc.evalSpecBool(st, en.Expr, sc)
+		g, internal := fc.evalCalleeClause(st, en, sc)
 		fc.noOblig--
+		if internal {
+			// the clause talks about the callee's own locals or ghost variables: it is proved on the callee's body
+			// and carries no information for callers
+			continue
+		}
 		if fc.inSpec {
 			g = Implies(specPre, g)
 		}
@@ -895,6 +900,23 @@ func (fc *FuncCtx) applyContract(st *State, fn *types.Func, c *FuncContract, rec
 		return results[0]
 	}
 	return Val{Tuple: results}
+}
+
+// evalCalleeClause evaluates a postcondition of a callee at a call site. A clause that names something only the
+// callee's body knows (a local variable, a ghost variable) is reported as internal.
+func (fc *FuncCtx) evalCalleeClause(st *State, en *Clause, sc *specCtx) (g *Term, internal bool) {
+	savedPC := st.pc
+	defer func() {
+		if r := recover(); r != nil {
+			if ee, ok := r.(engineError); ok && strings.Contains(ee.msg, "unknown name") {
+				st.pc = savedPC
+				g, internal = nil, true
+				return
+			}
+			panic(r)
+		}
+	}()
+	return fc.evalSpecBool(st, en.Expr, sc), false
 }
 
 func defaultResultName(res *types.Tuple, i int) string {
